@@ -107,6 +107,37 @@ def layouts():
     return out
 
 
+class _GroupLabels:
+    """groupby.groups[key]: the index labels of the rows of one group"""
+
+    __pyvc_symbolic__ = True
+
+    def __init__(self, key):
+        self.key = key
+
+
+class _RowsCarryingTheLabelsOf:
+    """data.loc[groupby.groups[key]]: every row whose label is one of the group's labels (a superset of the group under repeated labels)"""
+
+    __pyvc_symbolic__ = True
+
+    def __init__(self, key):
+        self.key = key
+
+
+class _GroupedData:
+    __pyvc_symbolic__ = True
+
+    @property
+    def loc(self):
+        return self
+
+    def pyvc_getitem(self, I, k):
+        if isinstance(k, _GroupLabels):
+            return _RowsCarryingTheLabelsOf(k.key)
+        raise core.Unsupported("grouped data .loc[...] with something other than a group's labels")
+
+
 class FormatGroupbyInput(Contract):
     target = f"{CB}._format_groupby_input"
     raises = (KeyError,)
@@ -116,6 +147,10 @@ class FormatGroupbyInput(Contract):
     def make_args(self):
         ks = layouts()[self.fixed.get("layout", 0)]
         pairs = ListObj([(k, SAny(name=f"group[{k!r}]")) for k in ks])
+        # the groupby object also offers `.groups` (key -> the LABELS of the group's rows) and `.obj` (the grouped data): selecting the
+        # labels of a group out of the data gives every row that CARRIES one of those labels - the group itself only when labels are unique
+        pairs.groups = DictObj({k: _GroupLabels(k) for k in ks})
+        pairs.obj = _GroupedData()
         unwrapped = [k[0] if isinstance(k, tuple) and len(k) == 1 else k for k in ks]
         sel = self.fixed.get("groups", "none")
         groups = {"none": None, "first": unwrapped[:1], "first+missing": unwrapped[:1] + ["zz"], "missing": ["zz"], "all": list(unwrapped)}[sel]
